@@ -484,6 +484,89 @@ TS = [1.0, 2.5]
 DS = [1, 2, 3]
 
 
+# ----------------------------------------------------------------------------- histories: re-estimated mass, reload (added)
+def ev_masshist(case):
+    """After the mass is re-estimated from the samples (estimate_mass, diagonal or full) - and again after save -> load -
+    the chain's trajectory map, kinetic energy and momentum law must be exactly those of a FRESH chain constructed with
+    that inverse mass: one consistent mass everywhere (the statement's 'kinetic energy ... is the one under which the
+    momenta are drawn', for every accepted mass specification, at any point of a chain's life)."""
+    import os
+    import tempfile
+
+    from inference.mcmc import HamiltonianChain
+
+    d, T, diagonal, bounded, steps0 = case["d"], case["T"], case["diagonal"], case["bounded"], case["steps"]
+    A = np.array([[2.0, 0.6, 0.1], [0.6, 1.0, -0.2], [0.1, -0.2, 1.5]])[:d, :d]
+
+    def post(t):
+        return -0.5 * float(t @ A @ t) - 0.05 * float((t ** 4).sum())
+
+    def grad(t):
+        return -(A @ t) - 0.2 * t ** 3
+
+    lo, hi = np.full(d, -1.6), np.full(d, 1.9)
+    fails, tags = [], set()
+    n = 0
+
+    def build(inv_mass=None):
+        kw = {}
+        if inv_mass is not None:
+            kw["inverse_mass"] = inv_mass
+        if bounded:
+            kw["bounds"] = (lo.copy(), hi.copy())
+        c = HamiltonianChain(posterior=post, grad=grad, start=np.array([0.3, -0.2, 0.5])[:d], temperature=T, epsilon=0.25, display_progress=True, **kw)
+        c.steps = 4
+        return c
+
+    with lib("construct"):
+        ch = build()
+    ch.rng = np.random.default_rng(case["seed"])
+    with lib("advance"):
+        for _ in range(steps0):
+            ch.take_step()
+    with lib("estimate_mass"):
+        ch.estimate_mass(burn=0, diagonal=diagonal)
+        im = np.array(ch.mass.inv_mass, dtype=float, copy=True)
+    objs = [("after-estimate_mass", ch)]
+    fd, path = tempfile.mkstemp(suffix=".npz")
+    os.close(fd)
+    try:
+        with lib("save-load"):
+            ch.save(path)
+            objs.append(("after-estimate_mass+reload", HamiltonianChain.load(path, posterior=post, grad=grad)))
+    finally:
+        os.unlink(path)
+    with lib("fresh"):
+        fresh = build(inv_mass=im.copy())
+    pts = [(np.array([0.2, -0.4, 0.7])[:d], np.array([1.0, -0.6, 0.4])[:d]), (np.array([-0.9, 0.8, 0.1])[:d], np.array([-0.5, 1.2, -1.0])[:d])]
+    for label, obj in objs:
+        obj.ES.epsilon = fresh.ES.epsilon = 0.2
+        for t0, r0 in pts:
+            for nst in (1, 3, 7):
+                a1, b1 = leap(obj, t0, r0, nst)
+                a2, b2 = leap(fresh, t0, r0, nst)
+                n += 2
+                if not (np.allclose(a1, a2, rtol=1e-12, atol=1e-14) and np.allclose(b1, b2, rtol=1e-12, atol=1e-14)):
+                    fails.append(fail(f"history/{label}/{'diagonal' if diagonal else 'full'}-mass/trajectory-differs-from-fresh-chain-with-that-mass",
+                                      f"n={nst}: end point {a1.tolist()} vs {a2.tolist()}", config=case))
+                    break
+            with lib("kinetic_energy"):
+                k1, k2 = float(obj.kinetic_energy(r0.copy())), float(fresh.kinetic_energy(r0.copy()))
+            if abs(k1 - k2) > 1e-12 * (1 + abs(k2)):
+                fails.append(fail(f"history/{label}/{'diagonal' if diagonal else 'full'}-mass/kinetic-energy-differs-from-fresh-chain-with-that-mass", f"{k1!r} vs {k2!r}", config=case))
+        # momentum law: same draws from the same generator state
+        g1, g2 = np.random.default_rng(5), np.random.default_rng(5)
+        with lib("sample_momentum"):
+            m1, m2 = np.array(obj.mass.sample_momentum(g1)), np.array(fresh.mass.sample_momentum(g2))
+        if not np.allclose(m1, m2, rtol=1e-12, atol=1e-14):
+            fails.append(fail(f"history/{label}/{'diagonal' if diagonal else 'full'}-mass/momentum-law-differs-from-fresh-chain-with-that-mass", f"{m1.tolist()} vs {m2.tolist()}", config=case))
+        tags.add(f"masshist:{label}:{'diagonal' if diagonal else 'full'}:d={d}:bounded={bounded}")
+    return {"fails": fails[:6], "n": n, "tags": tags}
+
+
+EVALUATORS["masshist"] = ev_masshist
+
+
 def run(ck):
     seed, quick = ck.seed, ck.quick
     # ---- trajectories
@@ -509,6 +592,8 @@ def run(ck):
     # simplest first (the first counterexample recorded is then the smallest)
     cases.sort(key=lambda c: (c["d"], c["n"], R.MASSES.index(c["mass"]), R.BOUNDS.index(c["bounds"])))
     ck.run_cases("traj", cases, chunk=1)
+    ck.run_cases("masshist", [dict(d=d, T=T, diagonal=dg, bounded=b, steps=st, seed=3 + ck.seed) for d in (1, 2, 3) for T in (1.0, 2.5) for dg in (True, False)
+                              for b in (False, True) for st in ((12,) if ck.quick else (6, 12, 40)) if not (d == 1 and not dg)], chunk=2)
     # ---- acceptance rule
     acases = []
     k = 0
